@@ -269,6 +269,13 @@ impl<'a, H> PacketBuffer<'a, H> {
         self.payload_ring.clear();
         self.metadata_ring.clear();
     }
+
+    /// Verification hook: `reset()` is crate-private (reached through socket `close()`);
+    /// this exposes it to the out-of-tree model-checking harness. Off by default.
+    #[cfg(feature = "_verif")]
+    pub fn verif_reset(&mut self) {
+        self.reset()
+    }
 }
 
 #[cfg(test)]
